@@ -61,22 +61,33 @@ def load_one(lit: LineIterator) -> dict:
     if not line.startswith(" &FCI NORB="):
         raise LoadError(f"Incorrect file header: {line.strip()}", lit)
 
+    # The header is a Fortran namelist, which may be spread over several lines and
+    # ends with &END or / (possibly on the first line).
+    header = line[5:]
+    while True:
+        stripped = header.rstrip()
+        if stripped.upper().endswith(("&END", "/END", "/")):
+            break
+        header += next(lit)
+    stripped = header.rstrip()
+    for terminator in "&END", "/END", "/":
+        if stripped.upper().endswith(terminator):
+            stripped = stripped[: -len(terminator)]
+            break
+
     # read info from header
-    words = line[5:].split(",")
     header_info = {}
-    for word in words:
+    key = None
+    for word in stripped.replace("\n", " ").split(","):
         if word.count("=") == 1:
             key, value = word.split("=")
-            header_info[key.strip()] = value.strip()
+            key = key.strip().upper()
+            header_info[key] = value.strip()
+        elif key is not None and word.strip() != "":
+            header_info[key] += "," + word.strip()
     nbasis = int(header_info["NORB"])
     nelec = int(header_info["NELEC"])
     spinpol = int(header_info["MS2"])
-
-    # skip rest of header
-    for line in lit:
-        words = line.split()
-        if words[0] == "&END" or words[0] == "/END" or words[0] == "/":
-            break
 
     # read the integrals
     one_mo = np.zeros((nbasis, nbasis))
